@@ -938,13 +938,14 @@ def fold_fn():
 def _s_replace(I, s, lineno, old, new, count=-1):
     if count != -1:
         raise Unsupported('replace with count')
-    I.used_summaries.add('str.replace = z3 str.replace_all')
-    return z3.ReplaceAll(to_z3(s), to_z3(old), to_z3(new)) if hasattr(z3, 'ReplaceAll') else _replace_all(s, old, new)
+    I.used_summaries.add('str.replace(a, b) = SMT-LIB str.replace_all for non-empty a')
+    return replace_all(s, old, new)
 
 
-def _replace_all(s, old, new):
-    f = z3.Function('str.replace_all', z3.StringSort(), z3.StringSort(), z3.StringSort(), z3.StringSort())
-    return f(to_z3(s), to_z3(old), to_z3(new))
+def replace_all(s, old, new):
+    """SMT-LIB str.replace_all (the z3 Python API has no wrapper for it)."""
+    zs, zo, zn = to_z3(s), to_z3(old), to_z3(new)
+    return z3.SeqRef(z3.Z3_mk_seq_replace_all(zs.ctx_ref(), zs.as_ast(), zo.as_ast(), zn.as_ast()), zs.ctx)
 
 
 def _s_join(I, s, lineno, items):
